@@ -17,6 +17,8 @@ ASSUME = [
     "FAILED events that report a failed descriptor fetch (a directory no upload was announced to, REASON=NOT_FOUND), for either "
     "service, are interleaved; they decide nothing; nor do Tor's other descriptor reports (CREATED - also a rebuild while uploads "
     "are being followed -, REQUESTED, RECEIVED, IGNORE), which are interleaved for either service as well",
+    "Tor may report the outcome of an upload to one directory a second time (UploadedAgain / FailedAgain): what was counted once is not "
+    "counted twice",
     "in two of five executions the caller passes a progress callback (its calls are recorded; the outcome must not depend on it)",
     "authenticated ephemeral services (which match uploads by a permanent id derived from an RSA key) are not replayed",
     "every fourth creation is started right after an earlier service's creation completed on the same connection, while the SETEVENTS "
@@ -57,6 +59,9 @@ def rand_script(rng):
         if rng.random() < 0.12:
             # Tor's other reports about a descriptor (built / rebuilt, a fetch started, answered, ignored): not uploads
             script.append(dict(a="Notice", s=s, d=d, k=rng.choice(["CREATED", "CREATED", "REQUESTED", "RECEIVED", "IGNORE"])))
+        elif st in ("ok", "failed") and rng.random() < 0.5:
+            # Tor reports the outcome once more (the second of a v3 service's two descriptors on the same directory)
+            script.append(dict(a="UploadedAgain" if st == "ok" else "FailedAgain", s=s, d=d))
         elif st == "none" and rng.random() < 0.2:
             script.append(dict(a="FetchFailed", s=s, d=d))      # a failed fetch of the descriptor: not an upload
         elif st == "none":
